@@ -21,14 +21,14 @@ THEOREMS = [
     "Typedpy.C17.fixed_compose_versionless_example", "Typedpy.C17.fixed_compose_clobber_example",
     "Typedpy.C17.fixed_deser_no_attribute_example", "Typedpy.C17.beq_sound", "Typedpy.C17.laws_example",
     "Typedpy.C17.step_contract_holds", "Typedpy.C17.step_contract_top_holds", "Typedpy.C17.convert_steps_contract",
-    "Typedpy.C17.step_contract_sensitive_example", "Typedpy.C17.nonpositive_version_accepted_example",
-    "Typedpy.C17.nonpositive_rejected_refuted", "Typedpy.C17.convert_nonpositive_characterised",
+    "Typedpy.C17.step_contract_sensitive_example", "Typedpy.C17.fixed_nonpositive_example",
+    "Typedpy.C17.nonpositive_rejected_holds", "Typedpy.C17.convert_nonpositive_raises",
     "Typedpy.C17.sites_doc_const_copy_today", "Typedpy.C17.no_doc_writes_today",
     "Typedpy.C17.convert_input_intact", "Typedpy.C17.convert_input_intact_today",
     "Typedpy.C17.step_input_intact", "Typedpy.C17.convert_result_disjoint", "Typedpy.C17.heap_examples",
     "Typedpy.C17.versioned_deserialize_whole_path", "Typedpy.C17.versioned_deserialize_is_plain",
     "Typedpy.C17.whole_path_example", "Typedpy.C17.convert_fn_error_propagates", "Typedpy.C17.convert_fn_result",
-    "Typedpy.C17.versioned_deserialize_trusted_whole_path", "Typedpy.C17.convert_nonint_version_raises",
+    "Typedpy.C17.versioned_deserialize_trusted_whole_path", "Typedpy.C17.convert_nonint_version_raises", "Typedpy.C17.deser_nonpositive_raises", "Typedpy.C17.step_contract_precedence_example",
 ]
 RULE = ("histories of 0..5 (thorough 0..8) mappings over top-level keys a..e (+ rarely `version`) with Constant, Deleted, "
         "moves (plain and dotted paths, degenerate paths), nested `._mapper` entries (depth <= 2) over sub-documents and "
@@ -53,8 +53,8 @@ ASSUMPTIONS = [
     "a mapping is a Python dict: keys unique per nesting level (`wfMapping`, checked per case); keys of Deleted / move / "
     "FunctionCall entries do not end in '._mapper'; values of '._mapper' keys are dicts",
     "law checks apply to every history (also with entries for `version`) and start versions v >= 1 (a document without `version` "
-    "counts as version 1, as convert_dict treats it); int versions v <= 0 are a known-finding region (accepted instead of "
-    "rejected); non-int versions (bool, str, float, ...) are only corresponded (Python slice / arithmetic semantics are modelled)",
+    "counts as version 1, as convert_dict treats it); int versions v <= 0 must be rejected (ValueError since typedpy e6a2398; before: findings "
+    "invalid-version-accepted:*); non-int versions (bool, str, float, ...) are only corresponded (Python slice / arithmetic semantics are modelled)",
     "key order of documents is modelled (insertion order) but compared order-insensitively, like Python ==",
     "heap-level theorems: user functions obey the capability discipline FnOk (allocate only; return an atom, something new or "
     "something reachable from the arguments); `copy.deepcopy` is a tree copy (internal sharing is not preserved — irrelevant to "
@@ -131,7 +131,7 @@ def judge(case, impl, model):
                           f"alias probe show nothing")
 
     # ---- start versions below 1 (the documentation has versions start at 1; `version` is a PositiveInt field):
-    # convert_dict slices the history with a negative index instead of rejecting the document
+    # convert_dict must reject the document (it used to slice the history with a negative index; fixed in e6a2398)
     if int_version and ver < 1:
         if "ok" in impl["full"]:
             fails.append(("invalid-version-accepted:convert_dict-nonpositive-start-version",
